@@ -33,50 +33,141 @@ def one(cx, name, pred=None, suffix='detail/printer.hpp'):
     return fs[0]
 
 
+class _Stop(Exception):
+    pass
+
+
+def _cond_value(n, env):
+    """Integer value of a side-effect-free condition over the finite environment (the byte value); None if not foldable."""
+    n = n.strip()
+    if n.kind == 'IntegerLiteral':
+        return int(n.value)
+    if n.kind == 'CharacterLiteral':
+        return int(n.j.get('value'))
+    if n.kind == 'DeclRefExpr':
+        return env.get(n.ref)
+    if n.kind in ('ConstantExpr', 'ParenExpr', 'ImplicitCastExpr', 'CStyleCastExpr', 'CXXFunctionalCastExpr', 'CXXStaticCastExpr') and n.kids:
+        return _cond_value(n.kids[-1], env)
+    if n.kind == 'UnaryOperator' and n.opcode == '!':
+        v = _cond_value(n.kids[0], env)
+        return None if v is None else int(not v)
+    if n.kind == 'BinaryOperator':
+        op = n.opcode
+        l = _cond_value(n.kids[0], env)
+        if op == '&&':
+            if l is not None and not l:
+                return 0
+            r = _cond_value(n.kids[1], env)
+            return None if l is None or r is None else int(bool(l) and bool(r))
+        if op == '||':
+            if l:
+                return 1
+            r = _cond_value(n.kids[1], env)
+            return None if l is None or r is None else int(bool(l) or bool(r))
+        r = _cond_value(n.kids[1], env)
+        if l is None or r is None:
+            return None
+        table = {'<': l < r, '<=': l <= r, '>': l > r, '>=': l >= r, '==': l == r, '!=': l != r}
+        if op in table:
+            return int(table[op])
+        arith = {'+': l + r, '-': l - r, '&': l & r, '|': l | r}
+        if op in arith:
+            return arith[op]
+    return None
+
+
+def _execute(stmt, env, out):
+    """Follows the one path the byte value `env` takes through `stmt`; the executed leaf statements are appended to `out`.
+    Raises _Stop at a return."""
+    k = stmt.kind
+    if k == 'CompoundStmt':
+        for s_ in stmt.kids:
+            _execute(s_, env, out)
+    elif k == 'IfStmt':
+        c, t, e = if_parts(stmt)
+        v = _cond_value(c, env)
+        if v is None:
+            raise AnalysisError('print_byte: condition `%s` is not foldable over the byte value' % c.text)
+        if v:
+            _execute(t, env, out)
+        elif e is not None:
+            _execute(e, env, out)
+    elif k == 'SwitchStmt':
+        v = _cond_value(stmt.kids[0], env)
+        body = stmt.kids[-1]
+        if v is None or body.kind != 'CompoundStmt':
+            raise AnalysisError('print_byte: switch not foldable over the byte value')
+        start, default = None, None
+        for i, s_ in enumerate(body.kids):
+            c = s_
+            while c.kind in ('CaseStmt', 'DefaultStmt'):
+                if c.kind == 'DefaultStmt':
+                    default = i if default is None else default
+                elif _cond_value(c.kids[0], env) == v and start is None:
+                    start = i
+                c = c.kids[-1]
+        start = default if start is None else start
+        if start is not None:
+            try:
+                for s_ in body.kids[start:]:
+                    c = s_
+                    while c.kind in ('CaseStmt', 'DefaultStmt'):
+                        c = c.kids[-1]
+                    _execute(c, env, out)
+            except _Break:
+                pass
+    elif k == 'ReturnStmt':
+        raise _Stop()
+    elif k == 'BreakStmt':
+        raise _Break()
+    elif k in ('WhileStmt', 'ForStmt', 'DoStmt', 'GotoStmt'):
+        raise AnalysisError('print_byte: %s is not modelled' % k)
+    elif k == 'NullStmt':
+        pass
+    else:
+        out.append(stmt)
+
+
+class _Break(Exception):
+    pass
+
+
 def escape_table(ctx, L):
+    """What print_byte emits is decided for each of the 256 byte values by following the value's own path through the function
+    (conditions folded over the value) and comparing the emitted pieces with CPython's bytes repr: \\t \\n \\r \\\\ escapes,
+    32..126 as the character itself, everything else as \\x + two lower-case zero-filled hex digits."""
     f = one(ctx.cxx, 'print_byte')
     out, x = f.params[0][0], f.params[1][0]
-    table = {}
-    for c in f.body.find('CaseStmt'):
-        v = int_value(c.kids[0])
-        lits = [s for s in c.find('StringLiteral')]
-        if v is None or len(lits) != 1:
-            raise AnalysisError('print_byte: unrecognised case label')
-        table[v] = ast.literal_eval(lits[0].j.get('value'))
-        # every escape case must leave the function (no fall through into the generic branch)
-        ok = any(r.kind == 'ReturnStmt' for r in c.parent.kids[c.parent.kids.index(c) + 1:c.parent.kids.index(c) + 2]) \
-            or any(True for _ in c.find('ReturnStmt'))
-        L.check(ok, 'C18.escape-table', 'print_byte|case %d returns' % v, f.site(c),
-                'escape case must return right after printing', c.text)
-    L.check(table == PY_ESCAPES, 'C18.escape-table', 'print_byte|escapes', f.site(),
-            'escape table %r differs from CPython bytes repr %r' % (table, PY_ESCAPES), str(table))
-    ifs = [i for i in stmts_of(f.body) if i.kind == 'IfStmt']
-    if len(ifs) != 1:
-        raise AnalysisError('print_byte: printable-range test not found')
-    cond, then, els = if_parts(ifs[0])
-    c = nows(cond.text).replace('(', '').replace(')', '')
-    lo = re.search(r'%s>=(\d+)' % x, c)
-    lo2 = re.search(r'%s>(\d+)' % x, c)
-    hi = re.search(r'%s<=(\d+)' % x, c)
-    hi2 = re.search(r'%s<(\d+)' % x, c)
-    rng = (int(lo.group(1)) if lo else int(lo2.group(1)) + 1 if lo2 else None,
-           int(hi.group(1)) if hi else int(hi2.group(1)) - 1 if hi2 else None)
-    L.check(rng == PY_PRINTABLE and '&&' in c, 'C18.escape-table', 'print_byte|printable-range', f.site(ifs[0]),
-            'printable range %r differs from CPython (32..126)' % (rng,), cond.text)
-    L.check(nows(then.text) == '{%s<<char(%s);}' % (out, x), 'C18.escape-table', 'print_byte|printable-as-char',
-            f.site(ifs[0]), 'printable bytes must be streamed as a char', then.text)
-    if els is None:
-        raise AnalysisError('print_byte: hex branch not found')
-    e = nows(els.text)
-    lits = [ast.literal_eval(s.j.get('value')) for s in els.find('StringLiteral')]
-    ok = lits == ['\\x'] and '%s.width(2)' % out in e and "fill('0')" in e and 'std::hex' in e \
-        and 'unsigned(%s)' % x in e and 'uppercase' not in e
-    L.check(ok, 'C18.escape-table', 'print_byte|hex-escape', f.site(ifs[0]),
-            'other bytes must print as \\x followed by exactly two lower-case zero-filled hex digits of the unsigned value',
-            els.text)
-    order_ok = e.index('width(2)') < e.index('std::hex') if 'width(2)' in e and 'std::hex' in e else False
-    L.check(order_ok, 'C18.escape-table', 'print_byte|width-before-value', f.site(ifs[0]),
-            'width(2) is consumed by the next insertion and must precede the value', els.text)
+    classes = {}
+    for v in range(256):
+        leaves = []
+        try:
+            _execute(f.body, {x: v}, leaves)
+        except _Stop:
+            pass
+        want = ('escape', PY_ESCAPES[v]) if v in PY_ESCAPES else ('char',) if PY_PRINTABLE[0] <= v <= PY_PRINTABLE[1] else ('hex',)
+        texts = [nows(l.text).rstrip(';') for l in leaves]
+        lits = [ast.literal_eval(s_.j.get('value')) for l in leaves for s_ in l.find('StringLiteral')]
+        if len(leaves) == 1 and lits and texts[0] == nows('%s<<%s' % (out, [s_ for s_ in leaves[0].find('StringLiteral')][0].text)):
+            got = ('escape', lits[0])
+        elif texts == ['%s<<char(%s)' % (out, x)] or texts == ['%s<<static_cast<char>(%s)' % (out, x)]:
+            got = ('char',)
+        else:
+            e = ';'.join(texts)
+            hex_ok = lits == ['\\x'] and ('%s.width(2)' % out in e or 'std::setw(2)' in e) and ("fill('0')" in e or "setfill('0')" in e) \
+                and 'std::hex' in e and 'unsigned(%s)' % x in e and 'uppercase' not in e
+            if 'width(2)' in e and 'std::hex' in e and e.index('width(2)') > e.index('unsigned(%s)' % x):
+                hex_ok = False      # width(2) is consumed by the next insertion and must precede the value
+            got = ('hex',) if hex_ok else ('other', e[:160])
+        classes.setdefault((want, got), []).append(v)
+    n = 0
+    for (want, got), vals in sorted(classes.items(), key=lambda kv: kv[1][0]):
+        n += 1
+        rng = '%d..%d' % (vals[0], vals[-1]) if len(vals) > 1 else str(vals[0])
+        L.check(want == got, 'C18.escape-table', 'print_byte|bytes %s|%s' % (rng, want[0]), f.site(),
+                'byte value(s) %s (%d value(s)) must be rendered as %s like CPython\'s bytes repr, but the path they take through '
+                'print_byte emits %s' % (rng, len(vals), want, got), str(got))
+    L.floor('C18.escape-table', n, 6)
 
 
 def operators(ctx, L):
